@@ -91,6 +91,7 @@ type wbuild struct {
 	curOpts InvOpts
 	dirInWay map[string]bool
 	diskBefore map[string]Listing
+	toggled    map[string]bool
 	fs       *faultState
 	focus    string
 	load     string
@@ -433,7 +434,7 @@ func (w *wbuild) handler(inv *simexec.Invocation) (int, error) {
 	extFail := u.ExtFail(s)
 	w.mu.Unlock()
 	dur := time.Duration(s.DurMS) * time.Millisecond
-	if s.Fail == "slow" {
+	if s.Fail == "slow" || extFail == "slow" {
 		dur = time.Duration(s.TimeoutMS*3) * time.Millisecond
 	}
 	alive := inv.Sleep(dur / 2)
